@@ -24,6 +24,8 @@ pub enum Ev {
     /// getrawtransaction: Some(true) = found in mempool, Some(false) = found confirmed, None = not found / error
     GetRaw { txid: Txid, found: Option<bool>, verdict: Verdict },
     OtherRpc { method: String },
+    /// tower database content at this instant
+    Snap(Box<crate::snap::Snap>),
 }
 
 #[derive(Clone, Default)]
